@@ -98,31 +98,34 @@ def run(ctx):
     quick = tier == 'quick'
     jobs = {}
     errs = []
+    # TLC jobs: at most NCPU workers in total (a few configs side by side on a big machine, one after the other on 4 cores)
+    w = max(1, min(4, vlib.NCPU))
+    slots = threading.Semaphore(max(1, vlib.NCPU // 4))
 
     def tlc_job(name, spec, cfg, **kw):
         def f():
-            try:
-                jobs[name] = ctx.tlc(spec, cfg, tag=name, **kw)
-            except Exception as e:  # noqa
-                errs.append(f'{name}: {e}')
+            with slots:
+                try:
+                    jobs[name] = ctx.tlc(spec, cfg, tag=name, workers=w, **kw)
+                except Exception as e:  # noqa
+                    errs.append(f'{name}: {e}')
         t = threading.Thread(target=f)
         t.start()
         return t
 
-    w = max(2, vlib.NCPU // 4)
-    # ---- 1. TLC: checking configs (VIEW hides the history variables) and generation configs, side by side
+    binary = ctx.go_build('repl')
+    # ---- 1. TLC: checking configs (VIEW hides the history variables) and generation configs
+    tmo = 1800 if quick else 3000
     threads = [
-        tlc_job('mc', 'Replication', f'Replication.MC_{tier}.cfg', workers=vlib.NCPU // 2, timeout=600 if quick else 2400, coverage=True),
-        tlc_job('wtab', 'ReplWriterTable', 'ReplWriterTable.cfg', workers=2, timeout=600, dump=True),
-        tlc_job('gen', 'Replication', f'Replication.Gen_{tier}.cfg', workers=w, timeout=600 if quick else 2400, dump=True),
-        tlc_job('age', 'Replication', f'Replication.Gen_age_{tier}.cfg', workers=w, timeout=600 if quick else 2400, dump=True),
-        tlc_job('per', 'Replication', 'Replication.Gen_periodic.cfg', workers=2, timeout=600, dump=True),
-        tlc_job('lead', 'Replication', 'Replication.MC_periodic.cfg', workers=2, timeout=600),
+        tlc_job('mc', 'Replication', f'Replication.MC_{tier}.cfg', timeout=tmo, coverage=True),
+        tlc_job('wtab', 'ReplWriterTable', 'ReplWriterTable.cfg', timeout=tmo, dump=True),
+        tlc_job('gen', 'Replication', f'Replication.Gen_{tier}.cfg', timeout=tmo, dump=True),
+        tlc_job('age', 'Replication', f'Replication.Gen_age_{tier}.cfg', timeout=tmo, dump=True),
+        tlc_job('per', 'Replication', 'Replication.Gen_periodic.cfg', timeout=tmo, dump=True),
+        tlc_job('lead', 'Replication', 'Replication.MC_periodic.cfg', timeout=tmo),
     ]
     if not quick:
-        threads.append(tlc_job('sim', 'Replication', 'Replication.Sim.cfg', workers=w, timeout=900,
-                               simulate={'num': 1500}, depth=120))
-    binary = ctx.go_build('repl')
+        threads.append(tlc_job('sim', 'Replication', 'Replication.Sim.cfg', timeout=tmo, simulate={'num': 1500}, depth=120))
     for t in threads:
         t.join()
     if errs:
@@ -187,7 +190,7 @@ def run(ctx):
     def slow_job():
         try:
             slow['per'] = ctx.replay(binary, per_cases, procs=1, par=max(1, len(per_cases)), timeout=600, case_timeout='100s')
-            res_e, lines_e = ctx.replay(binary, e2e_cases, procs=2, par=12, timeout=900, case_timeout='100s')
+            res_e, lines_e = ctx.replay(binary, e2e_cases, procs=1, par=max(1, len(e2e_cases)), timeout=900, case_timeout='100s')
             # timing-dependent family: a failure must repeat (twice more) to count; an unrepeatable one is noted only
             for attempt in range(2):
                 bad = [i for i, r in enumerate(res_e) if not r.get('ok') and r.get('kind') != 'infra']
